@@ -146,8 +146,9 @@ def canonicalise_locals(tree):
             if old != new and new not in names and old not in mapping and new not in mapping.values():
                 mapping[old] = new
 
-        splat = {k.value.id for c in ast.walk(fn) if isinstance(c, ast.Call) for k in c.keywords
-                 if k.arg is None and isinstance(k.value, ast.Name)}
+        # the dict that is splatted into the object constructor `tpm_type(**X)`
+        splat = {k.value.id for c in ast.walk(fn) if isinstance(c, ast.Call) and isinstance(c.func, ast.Name) and c.func.id == "tpm_type"
+                 for k in c.keywords if k.arg is None and isinstance(k.value, ast.Name)}
         for n in ast.walk(fn):
             if isinstance(n, ast.Assign) and len(n.targets) == 1:
                 t, v = n.targets[0], n.value
